@@ -1160,6 +1160,16 @@ fn c06(ix: &Ix, f: &mut Findings) {
                     if !*killed && !run_err_after && strict {
                         f.v("C06.killed", Some(a), format!("actor {a}: kill() returned before on_stop began, but on_stop got killed=false"));
                     }
+                    // a kill that finds the actor between hooks takes effect in that very instant: nothing the actor still
+                    // owes anybody (slots reserved for parked senders, queued messages) stands between kill() and on_stop
+                    if ix.sim() && *killed && x.start_exit.map(|s| s.0 < k).unwrap_or(false) && !ix.hook_in_progress(a, k) {
+                        f.o("C06.prompt");
+                        let kt = ix.log[k].t;
+                        let st = ix.log[*c].t;
+                        if st != kt {
+                            f.v("C06.prompt", Some(a), format!("actor {a}: kill() returned at {kt} ms (log position {k}) while no hook was in progress, but on_stop(killed=true) only began at {st} ms (log position {c})"));
+                        }
+                    }
                     if *killed {
                         f.o("C06.killed");
                         if let Some((_, sum, _)) = &x.ended {
@@ -1194,6 +1204,10 @@ fn c06(ix: &Ix, f: &mut Findings) {
                 None => {
                     if x.ended.is_some() && !run_err_after {
                         f.v("C06.killed", Some(a), format!("actor {a}: killed while running but on_stop never ran"));
+                    }
+                    // the history is over (quiescent, every gate open): a kill() that returned Ok has ended the actor
+                    if ix.sim() && x.ended.is_none() && x.start_exit.map(|s| s.1 == Out::Ok).unwrap_or(false) && !ix.hook_in_progress(a, ix.log.len()) {
+                        f.v("C06.prompt", Some(a), format!("actor {a}: kill() returned at log position {k}; at the end of the history no hook is in progress, yet on_stop never began and the actor has not ended"));
                     }
                 }
             }
